@@ -61,8 +61,8 @@ type attemptRec struct {
 	ref         RefResult
 	initialID   string
 	tooLong     bool // an event beyond the scanner's limit ended this connection (bufio.ErrTooLong)
-	cancelledAt int // delivered bytes when cancellation was seen by Read (-1: not)
-	endSeq      int // world sequence number when the next attempt started or Connect returned
+	cancelledAt int  // delivered bytes when cancellation was seen by Read (-1: not)
+	endSeq      int  // world sequence number when the next attempt started or Connect returned
 }
 
 type readRec struct {
@@ -159,6 +159,7 @@ type clientWorld struct {
 	callIdx        int  // index of the call a per-call oracle is looking at
 	b1Unclear      bool // per-call view: an earlier call's connection carried a retry field
 	getBodyFailSeq int
+	redirect       *attemptRec // the attempt whose first response was a redirect net/http is about to follow
 	noOnRetry      bool // the Client has no OnRetry: waits are taken from the attempts' instants
 	useDefault     bool // the connection is made with the package-level NewConnection (DefaultClient)
 	lateEdits      bool // the caller changes its Client and request after NewConnection
@@ -189,7 +190,7 @@ func (w *clientWorld) genBackoff() {
 	case 1:
 		b.Multiplier = 1
 	case 2:
-		b.Multiplier = []float64{1.25, 2, 3}[ch.Intn(3, "multiplier value")]
+		b.Multiplier = []float64{1.25, 2, 3, 10, 100}[ch.Intn(5, "multiplier value")]
 	}
 	switch ch.Weighted([]int{2, 4, 3}, "jitter") {
 	case 0:
@@ -401,25 +402,50 @@ type clientBody struct {
 func (rt *clientRT) RoundTrip(req *http.Request) (*http.Response, error) {
 	w := rt.w
 	ch := w.ch
-	slot := w.tick()
-	a := &attemptRec{n: len(w.attempts) + 1, retrySlot: slot, start: w.sim.Elapsed(), startSeq: w.tick(), header: req.Header.Clone(), cancelledAt: -1}
-	if n := len(w.attempts); n > 0 && w.attempts[n-1].endSeq == 0 {
-		w.attempts[n-1].endSeq = a.startSeq
+	var a *attemptRec
+	followUp := w.redirect != nil
+	if followUp {
+		// net/http is following the redirect this attempt was answered with: still the same attempt
+		a, w.redirect = w.redirect, nil
+		if req.Body != nil {
+			_, _ = io.ReadAll(req.Body)
+			req.Body.Close()
+		}
+		w.sim.Logf("RoundTrip", "#%d redirected request %s", a.n, req.Method)
+	} else {
+		slot := w.tick()
+		a = &attemptRec{n: len(w.attempts) + 1, retrySlot: slot, start: w.sim.Elapsed(), startSeq: w.tick(), header: req.Header.Clone(), cancelledAt: -1}
+		if n := len(w.attempts); n > 0 && w.attempts[n-1].endSeq == 0 {
+			w.attempts[n-1].endSeq = a.startSeq
+		}
+		a.lastID = req.Header.Values("Last-Event-ID")
+		a.initialID = w.lastDispatchedID
+		w.attempts = append(w.attempts, a)
+		if req.Body != nil {
+			a.body, a.bodyErr = io.ReadAll(req.Body)
+			req.Body.Close()
+		}
+		w.sim.Logf("RoundTrip", "#%d Last-Event-ID=%q body=%q", a.n, a.lastID, a.body)
 	}
-	a.lastID = req.Header.Values("Last-Event-ID")
-	a.initialID = w.lastDispatchedID
-	w.attempts = append(w.attempts, a)
-	if req.Body != nil {
-		a.body, a.bodyErr = io.ReadAll(req.Body)
-		req.Body.Close()
-	}
-	w.sim.Logf("RoundTrip", "#%d Last-Event-ID=%q body=%q", a.n, a.lastID, a.body)
 	w.sim.YieldHere("RoundTrip")
 	if err := req.Context().Err(); err != nil {
 		a.kind = attDialFail
 		a.dialErr = err
 		a.ended = w.sim.Elapsed()
 		return nil, err
+	}
+	if !followUp && w.rc.Prop != "C13" && w.bodyKind != 4 && ch.Chance(1, 10, "attempt answered with a redirect first") {
+		// http.Client follows it and calls RoundTrip again; to the connection this is one attempt
+		codes := []int{http.StatusTemporaryRedirect, http.StatusPermanentRedirect, http.StatusMovedPermanently, http.StatusFound}
+		if w.bodyKind == 3 {
+			codes = codes[2:] // 307 / 308 need GetBody to re-send the body; net/http would hand the 3xx response back
+		}
+		code := codes[ch.Intn(len(codes), "redirect status")]
+		w.redirect = a
+		w.o.probe("attempt answered with a redirect that net/http follows")
+		w.sim.Logf("RoundTrip", "#%d redirect %d", a.n, code)
+		return &http.Response{StatusCode: code, Status: strconv.Itoa(code), Proto: "HTTP/1.1", ProtoMajor: 1, ProtoMinor: 1,
+			Header: http.Header{"Location": []string{"http://sim.invalid/moved"}}, Body: http.NoBody, Request: req}, nil
 	}
 	last := a.n >= w.maxAtt
 	kind := attStream
@@ -632,10 +658,17 @@ func (w *clientWorld) doCancel(why string) {
 // called, with context.DeadlineExceeded as its error.
 type simDeadlineCtx struct {
 	context.Context
-	mu   sync.Mutex
-	done chan struct{}
-	err  error
+	mu          sync.Mutex
+	done        chan struct{}
+	err         error
+	deadline    time.Time
+	hasDeadline bool
 }
+
+// Deadline reports the instant at which the simulated canceller will end the context, when that is
+// a fixed instant (a context made with a timeout), or a far one (ended early, like a deadline
+// context whose parent is cancelled).
+func (c *simDeadlineCtx) Deadline() (time.Time, bool) { return c.deadline, c.hasDeadline }
 
 func (c *simDeadlineCtx) Done() <-chan struct{} { return c.done }
 
@@ -731,6 +764,13 @@ func runClientWorld(rc *RunCtx) *Outcome {
 				// a caller-supplied Context of another kind: it ends with DeadlineExceeded (ended by the same
 				// simulated canceller, so that the instant stays a scheduling decision)
 				dc := &simDeadlineCtx{Context: context.Background(), done: make(chan struct{})}
+				switch {
+				case w.cancelPlan == 3:
+					dc.deadline, dc.hasDeadline = time.Now().Add(w.cancelTime), true
+					o.probe("request context with a known deadline")
+				case rc.Ch.Chance(1, 2, "far deadline"):
+					dc.deadline, dc.hasDeadline = time.Now().Add(1000*time.Hour), true
+				}
 				w.ctx, w.cancel = dc, dc.expire
 				o.probe("request context that ends with DeadlineExceeded")
 			} else {
